@@ -8,6 +8,8 @@ impl Query for Comparison {
         let root = state.root;
         let (lhs, rhs) = self.vals();
         let lhs = lhs.process(state.clone());
+        #[cfg(jsonpath_rust_verif)]
+        crate::verif::point(crate::verif::CMP_MID);
         let rhs = rhs.process(state);
         match self {
             Comparison::Eq(..) => State::bool(eq(lhs, rhs), root),
